@@ -1,6 +1,7 @@
 (* Copy/Examples.v — the model on concrete inputs (non-vacuity of the theorems' hypotheses and
    regression of the interesting arms). *)
 From Verif Require Import Go.Ty Go.Val Go.Equal Copy.Model.
+From Coq Require Import Lia.
 Open Scope N_scope.
 
 Definition tint : ty := TB (KInt 64 true).
@@ -63,4 +64,48 @@ Proof. vm_compute. reflexivity. Qed.
 (* an unnamed struct that is not assignable is refused by the generator *)
 Example ex_unsup :
   dcf [] (TSt [(false, TP tint)]) (VSt [VNilP]) None 100 = Unsup.
+Proof. vm_compute. reflexivity. Qed.
+
+(* ---------- the hypotheses of the theorems are satisfiable on this input ---------- *)
+Example ex_guard : top_guard ex_src ex_dst = true.
+Proof. reflexivity. Qed.
+Example ex_fresh_new : forall l, In l (labels ex_src) -> (l < 100)%N.
+Proof. cbn. intros l H. repeat (destruct H as [<-|H]; [lia|]). destruct H. Qed.
+Example ex_disjoint : forall l, In l (labels ex_src) -> ~ In l (labels ex_dst).
+Proof.
+  cbn. intros l H H'.
+  repeat (destruct H as [<-|H]; [repeat (destruct H' as [H'|H']; [discriminate H'|]); destruct H'|]).
+  destruct H.
+Qed.
+(* the result reuses memory of the prior destination (11, 12) beside fresh memory (100..102), and
+   nothing of the source (1..5) *)
+Example ex_result_labels :
+  match deepcopy_top [] (TP exT) ex_dst ex_src 100 with
+  | Ok (r, _) => labels r = [11; 12; 100; 101; 102]%N
+  | _ => False
+  end.
+Proof. vm_compute. reflexivity. Qed.
+Example ex_clone_labels :
+  match clone_model [] (TP exT) ex_src 100 with
+  | Ok (r, _) => labels r = [100; 101; 102; 103; 104]%N
+  | _ => False
+  end.
+Proof. vm_compute. reflexivity. Qed.
+(* a slice of equal length and an empty map as destinations *)
+Example ex_slice_form :
+  deepcopy_top [] (TSl (TP tint)) (VSl 12 [VPtr 13 (VInt 1); VNilP] [VPtr 14 (VInt 2)])
+                                 (VSl 2 [VNilP; VPtr 3 (VInt 7)] []) 100
+  = Ok (VSl 12 [VNilP; VPtr 100 (VInt 7)] [VPtr 14 (VInt 2)], 101%N).
+Proof. vm_compute. reflexivity. Qed.
+Example ex_map_form :
+  deepcopy_top [] (TM (TB KStr) (TSl tint)) (VMap 15 [])
+                  (VMap 4 [(VStr [97%N], VSl 5 [] []); (VStr [98%N], VNilS)]) 100
+  = Ok (VMap 15 [(VStr [97%N], VSl 100 [] []); (VStr [98%N], VNilS)], 101%N).
+Proof. vm_compute. reflexivity. Qed.
+(* map[string][2]*int: the array is filled in a zeroed local and stored; a populated prior
+   destination entry is not reused (outside the property's guard, shown for the arm) *)
+Example ex_map_array :
+  deepcopy_top [] (TM (TB KStr) (TAr 2 (TP tint))) (VMap 15 [(VStr [97%N], VArr [VPtr 16 (VInt 1); VNilP])])
+                  (VMap 4 [(VStr [97%N], VArr [VNilP; VPtr 5 (VInt 3)])]) 100
+  = Ok (VMap 15 [(VStr [97%N], VArr [VNilP; VPtr 100 (VInt 3)])], 101%N).
 Proof. vm_compute. reflexivity. Qed.
